@@ -535,6 +535,37 @@ def _expand_combinators(mir, j, name, rec, skip):
                             'term': {'k': 'goto', 'target': t['target']}})
 
 
+def _expand_value_combinators(j):
+    """`cond.then_some(v)` and `opt.ok_or(e)` are rewritten into the branch they stand for (`if cond { Some(v) } else { None }`,
+    `match opt { Some(v) => Ok(v), None => Err(e) }`), so that a result built as `is_consecutive.then_some(groups).ok_or(Error)` is the guarded
+    `Ok(groups)` / `Err(..)` the path rules look for"""
+    for b in range(len(j['blocks'])):
+        t = j['blocks'][b]['term']
+        if t['k'] != 'call' or t.get('target') is None or len(t.get('args', [])) != 2 or t['dest']['p']:
+            continue
+        callee = t['callee'] or t['raw']
+        sp = t.get('span')
+        a0, a1 = t['args']
+        nb = len(j['blocks'])
+        if callee == 'core::bool::<impl bool>::then_some' and (a0.get('move') or a0.get('copy')):
+            j['blocks'].append({'stmts': [{'lhs': t['dest'], 'rv': {'rk': 'aggregate', 'agg': 'adt:std::option::Option::Some', 'fields': ['0'], 'ops': [a1]}, 'span': sp}],
+                                'term': {'k': 'goto', 'target': t['target']}})
+            j['blocks'].append({'stmts': [{'lhs': t['dest'], 'rv': {'rk': 'aggregate', 'agg': 'adt:std::option::Option::None', 'fields': [], 'ops': []}, 'span': sp}],
+                                'term': {'k': 'goto', 'target': t['target']}})
+            j['blocks'][b]['term'] = {'k': 'switch', 'discr': a0, 'targets': [[0, nb + 1]], 'otherwise': nb, 'span': sp, 'expanded': callee}
+        elif callee == 'std::option::Option::<T>::ok_or' and (a0.get('move') or a0.get('copy')):
+            rp = a0.get('move') or a0.get('copy')
+            disc = len(j['locals'])
+            j['locals'].append('isize')
+            j['blocks'][b]['stmts'].append({'lhs': {'l': disc, 'p': []}, 'rv': {'rk': 'discriminant', 'place': rp}, 'span': sp})
+            pay = {'l': rp['l'], 'p': rp['p'] + [{'downcast': 'Some'}, {'f': '0', 'i': 0, 'adt': 'std::option::Option', 'variant': 'Some'}]}
+            j['blocks'].append({'stmts': [{'lhs': t['dest'], 'rv': {'rk': 'aggregate', 'agg': 'adt:std::result::Result::Ok', 'fields': ['0'], 'ops': [{'move': pay}]}, 'span': sp}],
+                                'term': {'k': 'goto', 'target': t['target']}})
+            j['blocks'].append({'stmts': [{'lhs': t['dest'], 'rv': {'rk': 'aggregate', 'agg': 'adt:std::result::Result::Err', 'fields': ['0'], 'ops': [a1]}, 'span': sp}],
+                                'term': {'k': 'goto', 'target': t['target']}})
+            j['blocks'][b]['term'] = {'k': 'switch', 'discr': {'move': {'l': disc, 'p': []}}, 'targets': [[0, nb + 1]], 'otherwise': nb, 'span': sp, 'expanded': callee}
+
+
 LOOP_CONSUMERS = {'std::iter::Iterator::try_for_each': 'try', 'std::iter::Iterator::for_each': 'each'}
 
 
@@ -662,6 +693,7 @@ def inlined(mir, name, depth=2, max_blocks=400, skip=()):
     cg = mir.call_graph()
     rec = {n for comp in mir.sccs() if len(comp) > 1 or comp[0] in cg[comp[0]] for n in comp}
     _expand_combinators(mir, j, name, rec, skip)
+    _expand_value_combinators(j)
     _expand_closure_loops(mir, j, name)
     for _ in range(depth):
         changed = False
